@@ -3,7 +3,8 @@
 Generated: problem spec (nlp / convex QP / degenerate families; every variable and row kind) x
 in-bounds start x full option product (Newton type, step solver, linear solver, controller,
 penalty, active-set rule, numeric knobs) x scaling (none / custom / nominal / grad-jac / KKT) x
-solver (Solver 80 %, IntegrationSolver 20 %).
+solver (Solver ~70 %, IntegrationSolver ~30 %, most of the latter started in a corner of a coupled box QP so that
+several variables are pinned at once and must be released through events).
 
 Oracle (only when status == Optimal; dense reference of the user's functions at result.x, never
 pygradflow code): bounds exactly; row feasibility, stationarity, multiplier signs, bound
@@ -45,9 +46,17 @@ def strategy(tier):
     def _s(draw):
         case = draw(SC.solve_case(families=("nlp", "nlp", "qp", "degenerate", "patternvar", "intbox"), max_n=max_n, max_m=max_m,
                                   iteration_limit=300 if tier == "quick" else 1500))
-        kind = draw(st.sampled_from(["solver"] * 4 + ["integration"]))
+        kind = draw(st.sampled_from(["solver"] * 11 + ["integration"] * 2 + ["integration_corner"] * 3))
         if kind == "integration" and case["spec"]["n"] > 4:
             kind = "solver"
+        if kind == "integration_corner":
+            kind = "integration"
+            # the flow-integration solver pins variables at their bounds and releases them through events: start it
+            # in a corner of a coupled box QP so that several variables are pinned at once
+            spec = draw(S.any_spec(families=("convexbox",), max_n=4, max_m=0))
+            case["spec"] = spec
+            case["start"] = draw(S.start_point(spec, kinds=["corner", "corner", "corner", "vec"]))
+            case["scaling"] = draw(S.scaling_dict_strategy(spec, kinds=("none", "none", "custom")))
         case["solver"] = kind
         return case
 
